@@ -283,6 +283,21 @@ func (e *Engine) Verify(fn *ssa.Function, ct *Contract, props []string, opt Opti
 			}
 			st.assume(t)
 		}
+		// preconditions of the implemented interface contracts may be relied upon
+		for _, key := range ct.Implements {
+			if ict := e.db.ByIface[key]; ict != nil {
+				if ienv := vc.implEnv(st, f, ict, nil); ienv != nil {
+					ienv.old = st
+					for _, cl := range ict.Requires {
+						if t, err := ienv.EvalBool(cl.E); err == nil {
+							st.assume(t)
+						} else {
+							e.specError(fmt.Sprintf("%s implements %s: requires: %v", ct.Target, key, err))
+						}
+					}
+				}
+			}
+		}
 		for _, w := range ct.Witness {
 			v, err := env.EvalAny(w.E)
 			if err != nil {
